@@ -19,6 +19,7 @@ import Chrono.Proofs.TimeL
 import Chrono.Proofs.TimeCarryL
 import Chrono.Proofs.TimeCarryGapsL
 import Chrono.Proofs.TimeOpsL
+import Chrono.Proofs.TimeClosureL
 import Chrono.Extracted.TimeLits
 
 namespace Chrono.Props.C07
@@ -370,7 +371,10 @@ theorem std_duration_spec (t : Time) (secs nanos : Int) (ht : TValid t) (hs : 0 
     Time.sub_std t secs nanos = .ok (addLeap t (-(secs * 1000000000 + nanos))).1 :=
   time_std_spec' t secs nanos ht hs hn
 
-/-- the PINNED code (before the repair `ecbcee6`, model `add_std_pinned`) reduced the seconds modulo
+/-- HISTORY, not a statement about the present crate (audit2 L5): `add_std_pinned` models code that no longer
+exists in /repo; the theorem is kept as the record of the one C07 defect found and repaired, and is listed as such
+in props/C07.json.  What holds of the present code is `std_duration_spec`.
+The PINNED code (before the repair `ecbcee6`, model `add_std_pinned`) reduced the seconds modulo
 *two days* before the leap-second rules were applied, so a leap-second operand plus exactly two
 days stayed inside its leap second, whereas the documented rules leave it.  03:00:60.5 + 172800 s:
 pinned `+ Duration` gave 03:00:60.5; `+ TimeDelta`, the specification and the repaired operator give
@@ -624,7 +628,12 @@ date-times that holds exactly the two operands' leap seconds — the rule of `di
 second of the day" replaced by "earlier second of the time line".  For EVERY pair of valid
 date-times the implementation returns that distance plus `crossErr a b − crossErr b a`; a cross
 term is non-zero exactly for a leap-second operand on another date whose second of the day is
-ordered against the other operand's the opposite way to the dates (−1 s / +1 s). -/
+ordered against the other operand's the opposite way to the dates (−1 s / +1 s).
+READ WITH CARE (audit2 §2 / L4): `Spec.crossErr` is DEFINED as (leap count of the day-plus-time-of-day
+decomposition) − (leap count of the line), so the first conjunct is an algebraic identity once `datetime_diff` is
+known; the content is in the second conjunct (the case form).  `datetime_diff_vs_line_cases` below states the
+same with the case form as the definition (`Spec.crossCase`), so that nothing in the statement refers to what the
+implementation counts. -/
 theorem datetime_diff_vs_line (a b : NaiveDT) (ha : NDTInv a) (hb : NDTInv b) :
     NaiveDT.signed_duration_since a b = .ok (ofNs (dtDiffLine a b + crossErr a b - crossErr b a)) ∧
     crossErr a b =
@@ -668,7 +677,18 @@ theorem datetime_diff_is_line_distance_partial (a b : NaiveDT) (ha : NDTInv a) (
   rw [(datetime_diff_vs_line a b ha hb).1, e1, e2]
   exact congrArg _ (congrArg _ (by omega))
 
+/-- (audit2 L4) `datetime_diff_vs_line` with the cross term given by its CASE definition `Spec.crossCase`
+(earlier date and not-earlier second of the day: −1 s; later date and earlier second of the day: +1 s; else 0)
+instead of by the implementation's own count: for every pair of valid date-times the difference is the
+extended-line distance plus `crossCase a b − crossCase b a` -/
+theorem datetime_diff_vs_line_cases (a b : NaiveDT) (ha : NDTInv a) (hb : NDTInv b) :
+    NaiveDT.signed_duration_since a b =
+      .ok (ofNs (dtDiffLine a b + crossCase a b - crossCase b a)) :=
+  Proofs.TimeClosure.dt_diff_vs_line_cases a b ha hb
+
 example : NDTInv ⟨dateOfYo 2016 366, ⟨86399, 1500000000⟩⟩ ∧ DInv ⟨-3600, 0⟩ ∧
+    crossCase ⟨dateOfYo 2017 1, ⟨0, 0⟩⟩ ⟨dateOfYo 2016 366, ⟨86399, 1500000000⟩⟩ = -1000000000 ∧
+    crossCase ⟨dateOfYo 2016 366, ⟨86399, 500000000⟩⟩ ⟨dateOfYo 2017 1, ⟨0, 1500000000⟩⟩ = 1000000000 ∧
     (addLeap ⟨86399, 1500000000⟩ (ns ⟨-3600, 0⟩)).2 = 0 ∧
     NaiveDT.checked_add_signed ⟨dateOfYo 2016 366, ⟨86399, 1500000000⟩⟩ ⟨-3600, 0⟩ =
       .ok (some ⟨dateOfYo 2016 366, ⟨82800, 500000000⟩⟩) ∧
@@ -677,6 +697,108 @@ example : NDTInv ⟨dateOfYo 2016 366, ⟨86399, 1500000000⟩⟩ ∧ DInv ⟨-3
     dtDiffLine ⟨dateOfYo 2016 366, ⟨86399, 1500000000⟩⟩ ⟨dateOfYo 2016 366, ⟨0, 0⟩⟩ = 86400500000000 ∧
     crossErr ⟨dateOfYo 2017 1, ⟨0, 0⟩⟩ ⟨dateOfYo 2016 366, ⟨86399, 1500000000⟩⟩ = -1000000000 := by
   decide +kernel
+
+/-! ### Date-time subtraction is addition of the negated duration (audit2 L1) -/
+
+/-- clause "subtraction equals addition of the negated duration" at DATE-TIME level: for every valid date-time
+(leap representation on any second) and every `TimeDelta`, the negation never overflows and
+`checked_sub_signed dt d` IS `checked_add_signed dt (−d)` — same refusal, same date, same time -/
+theorem datetime_sub_is_add_neg (dt : NaiveDT) (d : Delta) (hdt : NDTInv dt) (hd : DInv d) :
+    ∃ n, Delta.neg d = .ok n ∧ DInv n ∧ ns n = -(ns d) ∧
+      NaiveDT.checked_sub_signed dt d = NaiveDT.checked_add_signed dt n :=
+  Proofs.TimeClosure.dt_sub_is_add_neg dt d hdt hd
+
+example : NDTInv ⟨Date.MIN, ⟨0, 1000000000⟩⟩ ∧ DInv ⟨1, 1⟩ ∧ Delta.neg ⟨1, 1⟩ = .ok ⟨-2, 999999999⟩ ∧
+    NaiveDT.checked_sub_signed ⟨Date.MIN, ⟨0, 1000000000⟩⟩ ⟨1, 1⟩ = .ok none ∧
+    NaiveDT.checked_add_signed ⟨Date.MIN, ⟨0, 1000000000⟩⟩ ⟨-2, 999999999⟩ = .ok none ∧
+    NaiveDT.checked_sub_signed ⟨dateOfYo 2017 1, ⟨0, 1500000000⟩⟩ ⟨2, 0⟩ =
+      .ok (some ⟨dateOfYo 2016 366, ⟨86399, 500000000⟩⟩) ∧
+    NaiveDT.checked_add_signed ⟨dateOfYo 2017 1, ⟨0, 1500000000⟩⟩ ⟨-2, 0⟩ =
+      .ok (some ⟨dateOfYo 2016 366, ⟨86399, 500000000⟩⟩) := by decide +kernel
+
+/-! ### The operator forms of `NaiveDateTime` (audit2 L2) -/
+
+/-- `impl Add / Sub / AddAssign / SubAssign <TimeDelta> for NaiveDateTime` (`Model/ArithOps.lean`: `expect` of the
+checked form; harness ops `ar.dtopadd` / `ar.dtopsub`): for every valid date-time (leap representation on any
+second) and every `TimeDelta` the operator PANICS exactly when day number + carry days lies outside
+`[NaiveDate::MIN, NaiveDate::MAX]` — never for another reason — and otherwise returns what the checked form
+returns (`datetime_leap_carry` says what that is) -/
+theorem datetime_operators_spec (dt : NaiveDT) (d : Delta) (hdt : NDTInv dt) (hd : DInv d) :
+    ((NaiveDT.add dt d = .panic ↔
+        (dayNumOf dt.date + (addLeap dt.time (ns d)).2 / 86400 < DN_MIN ∨
+         DN_MAX < dayNumOf dt.date + (addLeap dt.time (ns d)).2 / 86400)) ∧
+      ∀ x, NaiveDT.add dt d = .ok x ↔ NaiveDT.checked_add_signed dt d = .ok (some x)) ∧
+    ((NaiveDT.sub dt d = .panic ↔
+        (dayNumOf dt.date + (addLeap dt.time (-(ns d))).2 / 86400 < DN_MIN ∨
+         DN_MAX < dayNumOf dt.date + (addLeap dt.time (-(ns d))).2 / 86400)) ∧
+      ∀ x, NaiveDT.sub dt d = .ok x ↔ NaiveDT.checked_sub_signed dt d = .ok (some x)) := by
+  obtain ⟨⟨r1, e1, s1, _⟩, ⟨r2, e2, s2, _⟩⟩ := datetime_leap_carry dt d hdt hd
+  exact ⟨Proofs.TimeClosure.expect_char dt _ _ r1 e1 s1, Proofs.TimeClosure.expect_char dt _ _ r2 e2 s2⟩
+
+example : NDTInv ⟨Date.MAX, ⟨86399, 1500000000⟩⟩ ∧ DInv ⟨0, 500000000⟩ ∧
+    NaiveDT.add ⟨Date.MAX, ⟨86399, 1500000000⟩⟩ ⟨0, 500000000⟩ = .panic ∧
+    NaiveDT.add ⟨Date.MAX, ⟨86399, 1500000000⟩⟩ ⟨0, 499999999⟩ = .ok ⟨Date.MAX, ⟨86399, 1999999999⟩⟩ ∧
+    NaiveDT.sub ⟨Date.MIN, ⟨0, 1000000000⟩⟩ ⟨1, 1⟩ = .panic ∧
+    NaiveDT.sub ⟨Date.MIN, ⟨0, 1000000000⟩⟩ ⟨1, 0⟩ = .ok ⟨Date.MIN, ⟨0, 0⟩⟩ := by decide +kernel
+
+/-! ### `TValid` is exactly the set of values the public API produces (audit2 M3) -/
+
+/-- (audit2 M3 a) REACHABILITY: every representation the arithmetic theorems quantify over — a second of the day
+with a fraction below 2·10⁹, i.e. a leap representation on ANY second — is built by two public calls:
+`from_num_seconds_from_midnight_opt(secs, 0)` then `with_nanosecond(frac)`.  So `TValid` is not wider than what
+user code can hold. -/
+theorem tvalid_reachable (t : Time) (ht : TValid t) :
+    (Time.from_num_seconds_from_midnight_opt t.secs 0).bind (fun u => u.with_nanosecond t.frac) = some t :=
+  Proofs.TimeClosure.reachable t ht
+
+/-- (audit2 M3 b) CLOSURE: whatever the five constructors accept (unsigned arguments) is an accepted time
+(`TStrict`, hence `TValid`); from a valid time every `with_*`, `overflowing_add_signed / overflowing_sub_signed`
+(carry a whole number of days), the operators `+ - += -=` with `TimeDelta` and with `core::time::Duration`, and
+the offset shifts (fraction kept) return a valid time; `MIN` and `MAX` are accepted times.  For date-times the
+closure is the last clause of `datetime_leap_carry` (`NDTInv` of every result).  With `tvalid_reachable`: the
+quantifier "all times of day" of the arithmetic theorems is exactly {t | TValid t} = the values the public API
+can produce — neither wider nor narrower. -/
+theorem tvalid_closed :
+    (∀ h m s n r, 0 ≤ h → 0 ≤ m → 0 ≤ s → 0 ≤ n →
+      (Time.from_hms_nano_opt h m s n = some r ∨ Time.from_hms_milli_opt h m s n = some r ∨
+       Time.from_hms_micro_opt h m s n = some r ∨ Time.from_hms_opt h m s = some r ∨
+       Time.from_num_seconds_from_midnight_opt s n = some r) → TStrict r) ∧
+    (∀ t v r, TValid t → 0 ≤ v →
+      (t.with_hour v = some r ∨ t.with_minute v = some r ∨ t.with_second v = some r ∨
+       t.with_nanosecond v = some r) → TValid r) ∧
+    (∀ t d p, TValid t → DInv d →
+      (Time.overflowing_add_signed t d = .ok p ∨ Time.overflowing_sub_signed t d = .ok p) →
+      TValid p.1 ∧ p.2 % 86400 = 0) ∧
+    (∀ t d r, TValid t → DInv d →
+      (Time.add t d = .ok r ∨ Time.sub t d = .ok r ∨ Time.add_assign t d = .ok r ∨
+       Time.sub_assign t d = .ok r) → TValid r) ∧
+    (∀ t secs nanos r, TValid t → 0 ≤ secs → 0 ≤ nanos ∧ nanos < 1000000000 →
+      (Time.add_std t secs nanos = .ok r ∨ Time.sub_std t secs nanos = .ok r) → TValid r) ∧
+    (∀ t off p, TValid t → -86400 < off ∧ off < 86400 →
+      (Time.overflowing_add_offset t off = .ok p ∨ Time.overflowing_sub_offset t off = .ok p) →
+      TValid p.1 ∧ p.1.frac = t.frac) ∧
+    TStrict Time.MIN ∧ TStrict Time.MAX := by
+  refine ⟨?_, ?_, ?_, ?_, ?_, ?_, by decide, by decide⟩
+  · intro h m s n r h0 m0 s0 n0 e
+    rcases e with e | e | e | e | e
+    · exact Proofs.TimeClosure.ctor_nano h m s n r h0 m0 s0 n0 e
+    · exact Proofs.TimeClosure.ctor_milli h m s n r h0 m0 s0 n0 e
+    · exact Proofs.TimeClosure.ctor_micro h m s n r h0 m0 s0 n0 e
+    · exact Proofs.TimeClosure.ctor_hms h m s r h0 m0 s0 e
+    · exact (Proofs.TimeGaps.nsfm_accepts_strict s n s0 n0 r e).1
+  · intro t v r ht hv e; exact Proofs.TimeClosure.with_any t v r ht hv e
+  · intro t d p ht hd e; exact Proofs.TimeClosure.add_any t d p ht hd e
+  · intro t d r ht hd e; exact Proofs.TimeClosure.op_any t d r ht hd e
+  · intro t secs nanos r ht hs hn e; exact Proofs.TimeClosure.std_any t secs nanos r ht hs hn e
+  · intro t off p ht ho e; exact Proofs.TimeClosure.offset_any t off p ht ho e
+
+/-- non-vacuity: a leap representation on an ordinary second (which no constructor accepts) is reached by the two
+calls, and arithmetic on it stays inside `TValid` -/
+example : TValid ⟨3723, 1999999999⟩ ∧ ¬ TStrict ⟨3723, 1999999999⟩ ∧
+    (Time.from_num_seconds_from_midnight_opt 3723 0).bind (fun u => u.with_nanosecond 1999999999) =
+      some ⟨3723, 1999999999⟩ ∧
+    Time.overflowing_sub_signed ⟨3723, 1999999999⟩ ⟨0, 999999999⟩ = .ok (⟨3723, 1000000000⟩, 0) ∧
+    Time.overflowing_add_offset ⟨3723, 1999999999⟩ (-3724) = .ok (⟨86399, 1999999999⟩, -1) := by decide
 
 /-- the day-number contract used before the packed date existed (`Model/TimeCarry.lean`:
 `NaiveDate::add_days` replaced by "day + n, refused outside a window `[lo, hi]`", the date
